@@ -301,6 +301,23 @@ def verify_function(key, table, fields, monitor=None, timeout_ms=None, cex_fn=No
             res.obligations.append(ObResult(ob, ob._merged))
             continue
         v = solve.check_valid(ob.hyps, ob.goal, timeout_ms)
+        if v.status != "discharged" and z3.is_and(ob.goal) and ob.kind in ("inv-entry", "inv-preserve", "post") \
+                and ob.goal.num_args() > 1:
+            # report the conjuncts separately: smaller queries, and the failing part is named
+            parts = ob.goal.children()
+            allok = True
+            for n_, part in enumerate(parts):
+                sub = Obligation("%s#%d" % (ob.name, n_), ob.hyps, part, ob.sig, ob.kind, ob.clause, ob.props, ob.extra)
+                vs = solve.check_valid(sub.hyps, sub.goal, timeout_ms)
+                rs = ObResult(sub, vs)
+                if vs.status == "refuted" and cex_fn is not None:
+                    try:
+                        rs.cex = cex_fn(env, ex, args, sub, vs.model)
+                    except Exception as e:
+                        rs.cex = {"error": "%s: %s" % (type(e).__name__, e)}
+                res.obligations.append(rs)
+                allok = allok and vs.status == "discharged"
+            continue
         r = ObResult(ob, v)
         if v.status == "refuted" and cex_fn is not None:
             try:
